@@ -183,6 +183,10 @@ def lossmin_case(draw, tier):
         "single_difference_loss", "sum_absolute_difference_loss",
         "sum_absolute_difference_variable", "sum_absolute_difference_projected_gradient"]))
     c["num_history"] = draw(st.integers(1, 3))
+    if c["stop_mode"] in ("sum_absolute_difference_variable", "sum_absolute_difference_projected_gradient"):
+        # the default eps (1e-14) is a loss-difference scale; a step-norm criterion needs a step-norm threshold
+        # above the accuracy of the inner projection (sqrt(1e-14))
+        c["algo_eps"] = draw(st.sampled_from([1e-5, 1e-6]))
     c["constraints"] = draw(st.sampled_from([[True, True], [True, True], [True, False], [False, True]]))
     c["max_iter"] = 300 if tier == "quick" else 1000
     return c
@@ -200,6 +204,7 @@ def run_lossmin(case, qt, empi, detailed=True):
         num_history_stopping_criterion_gradient_descent=case["num_history"],
         mode_proj_order=case["order"],
         max_iteration_optimization=case["max_iter"],
+        **({"eps": case["algo_eps"]} if case.get("algo_eps") else {}),
     )
     res = LossMinimizationEstimator().calc_estimate(
         qt, empi, loss, loss_opt, algo, algo_opt,
